@@ -147,3 +147,13 @@ package abci
 //@   ensures err == nil ==> old(tx.Nonce) == 0 && old(tx.Fee) == nil && len(old(mux.state.proposal.hash)) > 0 && old(api.IsDeliver(ctx))
 //@   ensures err == nil ==> GBytesEqTrue > old(GBytesEqTrue)
 //@   note a system transaction is accepted only in block delivery (never while the proposal is being built), with zero nonce and no fee, and only after the signer-address comparison with the block proposer came out equal
+
+// ---- proposal execution (C01): one cached result object per transaction ----
+
+//@ func abciMux.executeProposal
+//@   props C01
+//@   loop 1 invariant len(resultsDeliverTx) == idx()
+//@   loop 1 invariant forall j int :: 0 <= j && j < len(resultsDeliverTx) ==> resultsDeliverTx[j] != nil && allocated(resultsDeliverTx[j])
+//@   loop 1 invariant forall j, k int :: 0 <= j && j < k && k < len(resultsDeliverTx) ==> resultsDeliverTx[j] != resultsDeliverTx[k]
+//@   precall proposalState\)\.setResults$ :: argIs(1, resultsDeliverTx) && len(resultsDeliverTx) == len(txs) && (forall j, k int :: 0 <= j && j < k && k < len(resultsDeliverTx) ==> resultsDeliverTx[j] != resultsDeliverTx[k])
+//@   note the cached per-transaction results are as many as the transactions and are pairwise distinct objects, each created for its own DeliverTx call (an aliased result variable would make every cached entry show the last transaction's result, so that cached and re-executed blocks report different results)
